@@ -6,7 +6,7 @@ CONSTANTS
   Datasets = {"d1", "d2"}
   NRetries = 1
   ProbeRetries = 3
-  MaxLen = 2
+  MaxLen = 1
   MaxFaults = 3
   ErrTail = FALSE
   UrlOf <- IdMap
